@@ -47,7 +47,7 @@ theorem poll_stale (pn : Waker → Nat → World → Option (NextRes × World)) 
     (hp : pollBlock pn f wk (.cmd cid) t.fut w = some (res, w1)) : Stale cid tid t (resRefs res) w1 ∧ hfRes res := by
   have hft : hostFreeB t.fut = true := hown.hft t (Slab.mem_values_of_get _ _ _ hg)
   have hl := pollBlock_lgood pn f wk (.cmd cid) t.fut w res w1 hp hft
-  have htk := pollBlock_tgood pn f wk (.cmd cid) t.fut w res w1 hp hft
+  have htk : TK w w1 := pollBlock_tgood pn f _ wk (.cmd cid) t.fut w res w1 hp hft (fun _ _ _ h => h)
   have hT := htk.tasks cid
   refine ⟨⟨by rw [hT]; exact hg, by rw [hT]; exact hown.hft, ?_, ?_⟩, hl.2⟩
   · intro t' hm
